@@ -40,7 +40,7 @@ def _trim_ok(s):
 
 
 DATA = st.one_of(
-    st.sampled_from(["x", "12.50", "20200101120000.000[-5:EST]", "a b", "Tom &amp; Jerry", "1 > 0", "a]]b", "line1\nline2", "é漢", "Ame\u0301lie", "\u212b\u2126\uf900", "Caf\ufeffe", "x" * 256, "long " * 80 + "end"]),
+    st.sampled_from(["x", "12.50", "20200101120000.000[-5:EST]", "a b", "Tom &amp; Jerry", "1 > 0", "a]]b", "line1\nline2", "é漢", "Ame\u0301lie", "\u212b\u2126\uf900", "Caf\ufeffe", "ready?>go", "a <?b c?> d".replace("<", "&lt;"), "x" * 256, "long " * 80 + "end"]),
     st.lists(DATA_CH, min_size=1, max_size=12).map("".join).map(lambda s: s.strip()).filter(_trim_ok),
 )
 
